@@ -303,7 +303,7 @@ def _pick_boundary_days(days, quick, rng):
     for i, r in enumerate(days):
         by_kind.setdefault(r["kind"], []).append(i)
     special_years = {1901, 1904, 1999, 2000, 2001, 2016, 2019, 2020, 2098, 2099}
-    want = {"year": 8, "leapday": 10, "month": 10, "day": 4} if quick else \
+    want = {"year": 7, "leapday": 7, "month": 7, "day": 3} if quick else \
            {"year": 50, "leapday": 50, "month": 60, "day": 40}
     chosen = []
     for kind, n in want.items():
@@ -513,7 +513,7 @@ def run(ctx: Ctx):
             idx = cal.DayIndex(dn_pairs)
             tup = [(r["y"], r["m"], r["d"], r["dn"], r["doy"]) for r in days]
             tasks = []
-            n_sod = 4 if quick else 24
+            n_sod = 3 if quick else 24
             chunk = 300 if quick else 100
             for a in range(0, len(tup), chunk):
                 tasks.append({"kind": "sparse", "id": len(tasks), "days": tup[a:a + chunk], "seed": ctx.seed, "n": n_sod,
@@ -524,9 +524,11 @@ def run(ctx: Ctx):
                 nxt = tup[i + 1] if i + 1 < len(tup) else None
                 for h0 in range(0, 24, hours):
                     tasks.append({"kind": "full", "id": len(tasks), "day": tup[i], "next": nxt,
-                                  "dense": j % (16 if quick else 5) == 0,
+                                  "dense": j % (12 if quick else 5) == 0,
                                   "lo": h0 * 3600, "hi": (h0 + hours) * 3600, "dn": _dn_of(tup, i, i + 1)})
-            sweep_async = pool.map_async(_dispatch, tasks, chunksize=1)
+            early = f_sec.done() and f_dur.done()      # (only decides which batch the pool serves first)
+            if not early:
+                sweep_async = pool.map_async(_dispatch, tasks, chunksize=1)
             # -- timed runs follow as soon as the lattice and the boundary ticks are there
             sec_res, ticks = f_sec.result()
             dur_res = cal.spec_fail(f_dur.result(), "Durations.tla lattice")
@@ -538,6 +540,8 @@ def run(ctx: Ctx):
             dur_tasks = _duration_tasks(chosen, starts, rng)
             phase["lattice_and_ticks"] = round(time.time() - t0, 1)
             dur_async = pool.map_async(_dispatch, dur_tasks, chunksize=2)
+            if early:
+                sweep_async = pool.map_async(_dispatch, tasks, chunksize=1)
             killed = f_mut.result()
         ctx.add_tlc(walk_res, "Calendar.tla day walk 1901-2099 (calendar invariants, RoundTrip, Monotone; per-day table)")
         ctx.add_tlc(sec_res, "Calendar.tla second ticks across boundary instants (Monotone, RoundTrip, TickLength)")
